@@ -190,9 +190,14 @@ class Executor(Exec):
             if not isinstance(c, DictCell): raise Unsupported("dict(x)")
             r = new_ref()
             return k(SRef(args[0].ty, r), st.put(r, c))
-        if name in ("set", "frozenset"):
+        if name == "frozenset":
             if not args: return k(SClosure("emptyset", "set()"), st)
             return k(self.to_setv(args[0], st), st)
+        if name == "set":
+            if not args: return k(SClosure("emptyset", "set()"), st)
+            sv = self.to_setv(args[0], st)
+            r = new_ref()
+            return k(SRef(("set", sv.elem), r), st.put(r, SetCell(sv.elem, sv.mem)))
         if name == "isinstance":
             return k(B(self.isinstance_(args[0], args[1], st)), st)
         if name in ("_id", "id"):
@@ -564,6 +569,8 @@ class Executor(Exec):
         if isinstance(t, ast.Subscript):
             def got(vals, st2):
                 o, i = vals
+                if isinstance(o, SSubSet):         # g[x][y] = None  on a dict of dicts-used-as-sets: add y to g[x]
+                    return self.subset_method(o, "add", [i], st2, lambda _, st3: k(st3))
                 if isinstance(o, SRef):
                     c = st2.cell(o.ref)
                     if isinstance(c, DictCell):
